@@ -27,7 +27,9 @@ Valid(f) ==
   /\ f.lba >= 1 /\ f.lba + f.len < 2147483647
   /\ IF Clusters(f) < 4085 THEN FALSE                          \* FAT12: not supported
      ELSE IF Clusters(f) < 65525
-     THEN f.fatsz16 # 0 /\ f.rootent > 0 /\ (f.rootent * 32) % 512 = 0 /\ FatSz(f) * 256 >= Clusters(f) + 2
+     \* (a root entry count that does not fill its last block is unusual but well-formed: the specification's
+     \*  formula for the root directory's size rounds up)
+     THEN f.fatsz16 # 0 /\ f.rootent > 0 /\ FatSz(f) * 256 >= Clusters(f) + 2
      ELSE /\ f.fatsz16 = 0 /\ f.rootent = 0 /\ f.fsver = 0
           /\ f.rootclus >= 2 /\ f.rootclus < Clusters(f) + 2
           /\ f.fsinfo >= 1 /\ f.fsinfo < f.resv /\ f.infosig
